@@ -481,10 +481,10 @@ def vc_codegen_sqrt(H):
             r = H.closure(Interp(ctx, source_name=CG), fuc, env)(x)
             if case == 'scalar':
                 ok = isinstance(r, dict) and list(r) == [0] and isinstance(r[0], str)
-                ctx.oblige('sqrt of a scalar: {0: text}', bool(ok))
+                ctx.oblige('only(C13,C19): sqrt of a scalar: {0: text}', bool(ok))
                 if ok:
                     v = eval(compile(_ast.parse(r[0], mode='eval'), '<s>', 'eval'), {'XE': 9.0})
-                    ctx.oblige('sqrt of a scalar: text evaluates to sqrt(x.e)', abs(v - 3.0) < 1e-12, meta={'text': r[0]})
+                    ctx.oblige('only(C13,C19): sqrt of a scalar: text evaluates to sqrt(x.e)', abs(v - 3.0) < 1e-12, meta={'text': r[0]})
                 return r
             ok = isinstance(r, tuple) and r[0] == 'LambdifyInput'
             ctx.oblige('returns a LambdifyInput', bool(ok))
@@ -492,29 +492,37 @@ def vc_codegen_sqrt(H):
                 return r
             kw = r[1]
             bI = state.get('bI')
-            ctx.oblige('bI is the whole non-scalar part: x - x.grade(0)', bI is not None and bI.tree == ('binop', 'Sub', 'x', 'x.grade(0)'))
+            ctx.oblige('only(C08,C19): bI is the whole non-scalar part: x - x.grade(0)', bI is not None and bI.tree == ('binop', 'Sub', 'x', 'x.grade(0)'))
             deps = kw.get('dependencies') or []
             ctx.oblige('two dependencies: c and c2_inv', len(deps) == 2 and deps[0][0] == 'SYM_c' and deps[1][0] == 'SYM_c2_inv', meta={'deps': repr(deps)[:300]})
             if len(deps) != 2:
                 return r
+            if case == 'study':
+                ctx.oblige('only(C19): normS == (a*a - bI*bI).e', state.get('normS_tree') == ('binop', 'Sub', ('binop', 'Mult', 'x.grade(0)', 'x.grade(0)'),
+                                                                                      ('binop', 'Mult', bI.tree, bI.tree)), meta={'got': repr(state.get('normS_tree'))})
             envv = {'AE': 3.0, 'NS0': 3.0, 'NS1': 1.0}                    # a.e = 3, normS = NS0 + NS1 = 4 (prints as a sum)  ->  c^2 = (3 + 2)/2
             try:
                 c = eval(compile(_ast.parse(deps[0][1], mode='eval'), '<c>', 'eval'), dict(envv))
                 c2 = eval(compile(_ast.parse(deps[1][1], mode='eval'), '<c2>', 'eval'), dict(envv))
-            except Exception as e:
-                ctx.oblige('dependency texts are valid expressions', False, meta={'error': repr(e)})
+            except SyntaxError as e:
+                if any(t in deps[0][1] + deps[1][1] for t in ('<', 'Rec(', 'object at')):
+                    # the text contains the repr of a value this contract's printing model has no text for
+                    raise OutOfSubset('codegen_sqrt: dependency text contains a value the contract model cannot print')
+                ctx.oblige('dependency texts are valid expressions', False, meta={'error': repr(e), 'texts': [deps[0][1][:200], deps[1][1][:200]]})
                 return r
+            except Exception as e:
+                # the text is well formed but mentions something this contract's printing model does not produce
+                raise OutOfSubset(f'codegen_sqrt: dependency text not evaluable in the contract model ({type(e).__name__}: {e})')
+            ctx.oblige('dependency texts are valid expressions', True)
             if case == 'study':
-                ctx.oblige('normS == (a*a - bI*bI).e', state.get('normS_tree') == ('binop', 'Sub', ('binop', 'Mult', 'x.grade(0)', 'x.grade(0)'),
-                                                                                      ('binop', 'Mult', bI.tree, bI.tree)), meta={'got': repr(state.get('normS_tree'))})
-                ctx.oblige('c^2 == (a + sqrt(normS)) / 2 (texts evaluated with a.e and normS printing as sums)', abs(c * c - 2.5) < 1e-12, meta={'text': deps[0][1]})
+                ctx.oblige('only(C13,C19): c^2 == (a + sqrt(normS)) / 2 (texts evaluated with a.e and normS printing as sums)', abs(c * c - 2.5) < 1e-12, meta={'text': deps[0][1]})
             else:
-                ctx.oblige('(bI)^2 == 0: c == sqrt(a)', abs(c * c - 3.0) < 1e-12, meta={'text': deps[0][1]})
-            ctx.oblige('c2_inv == 1 / (2c)', abs(c2 * 2 * c - 1.0) < 1e-12, meta={'text': deps[1][1]})
+                ctx.oblige('only(C13,C19): (bI)^2 == 0: c == sqrt(a)', abs(c * c - 3.0) < 1e-12, meta={'text': deps[0][1]})
+            ctx.oblige('only(C13,C19): c2_inv == 1 / (2c)', abs(c2 * 2 * c - 1.0) < 1e-12, meta={'text': deps[1][1]})
             # result c + bI * c2_inv
             ed = kw.get('expr_dict')
             tree = ed.get('ITEMS-OF').tree if isinstance(ed, dict) and 'ITEMS-OF' in ed else None
-            ctx.oblige('result expressions are those of c + bI * c2_inv', tree == ('binop', 'Add', 'c', ('binop', 'Mult', bI.tree, 'c2_inv')), meta={'got': repr(tree)})
+            ctx.oblige('only(C19): result expressions are those of c + bI * c2_inv', tree == ('binop', 'Add', 'c', ('binop', 'Mult', bI.tree, 'c2_inv')), meta={'got': repr(tree)})
             ctx.oblige("args bind x to its values", kw.get('args') == {'x': 'XVALS'})
             return r
         H.run_paths(fuc, case, body)
